@@ -368,6 +368,7 @@ func checkC14(p *Program, r *Report) {
 			r.OK("R14.5", key+": inputs argument never written")
 		}
 	}
+	checkParametersAlwaysApplied(p, r, models)
 	{
 		models, _ := p.Registry()
 		checkRunLengthIndependence(p, r, models, "R14.6", false)
@@ -599,4 +600,82 @@ func globalWritesFrom(p *Program, roots []*ssa.Function) []globalWrite {
 		})
 	}
 	return out
+}
+
+// checkParametersAlwaysApplied (R14.8): what a model object computes with is what it was last given. Every normal
+// return of ApplyParameters is dominated by an assignment of each parameter field: a path that returns early (the
+// object "already has" parameters of that layout) leaves views of the previous parameter array in place, and the
+// next Run depends on the object's history instead of on the parameters it was handed.
+func checkParametersAlwaysApplied(p *Program, r *Report, models []*Model) {
+	r.Rule("R14.8", "parameters are applied on every path: in each wrapper's ApplyParameters every parameter field of the model is assigned (directly, or by a helper handed the receiver) in a block that dominates every normal return; an early return that skips the assignments lets the parameter views of an earlier call survive in the object")
+	n := 0
+	for _, m := range models {
+		ap := m.Methods["ApplyParameters"]
+		if ap == nil || len(ap.Blocks) == 0 || len(m.Params) == 0 {
+			continue
+		}
+		n++
+		key := m.RelPkg + "." + m.Name
+		recv := ap.Params[0]
+		rets := returnsOf(ap)
+		// blocks assigning each field of the receiver
+		assigned := map[string][]*ssa.BasicBlock{}
+		eachInstr(ap, func(b *ssa.BasicBlock, _ int, ins ssa.Instruction) {
+			switch x := ins.(type) {
+			case *ssa.Store:
+				if fa, ok := x.Addr.(*ssa.FieldAddr); ok && origin1(fa.X) == ssa.Value(recv) {
+					name, _, _ := fieldName(fa)
+					assigned[name] = append(assigned[name], b)
+				}
+			case ssa.CallInstruction:
+				// a helper method of the model that assigns fields of its own receiver on every path
+				f := x.Common().StaticCallee()
+				if f == nil || len(f.Blocks) == 0 || !InModule(f) || len(x.Common().Args) == 0 || origin1(x.Common().Args[0]) != ssa.Value(recv) || f == ap {
+					return
+				}
+				hrets := returnsOf(f)
+				eachInstr(f, func(hb *ssa.BasicBlock, _ int, hi ssa.Instruction) {
+					st, ok := hi.(*ssa.Store)
+					if !ok {
+						return
+					}
+					fa, ok := st.Addr.(*ssa.FieldAddr)
+					if !ok || len(f.Params) == 0 || origin1(fa.X) != ssa.Value(f.Params[0]) {
+						return
+					}
+					for _, hr := range hrets {
+						if !hb.Dominates(hr.Block()) {
+							return
+						}
+					}
+					name, _, _ := fieldName(fa)
+					assigned[name] = append(assigned[name], b)
+				})
+			}
+		})
+		var missing []string
+		for _, ps := range m.Params {
+			ok := false
+			for _, b := range assigned[ps.Name] {
+				all := true
+				for _, ret := range rets {
+					if !b.Dominates(ret.Block()) {
+						all = false
+					}
+				}
+				if all {
+					ok = true
+				}
+			}
+			if !ok {
+				missing = append(missing, ps.Name)
+			}
+		}
+		if len(missing) > 0 {
+			r.Fail("R14.8", key+":apply", p.Pos(ap.Pos()), fmt.Sprintf("ApplyParameters of %s can return without assigning %s: on that path the model keeps the parameter views of an earlier call, so what Run computes depends on the history of the object, not only on the parameters it was given", m.Name, strings.Join(missing, ", ")))
+		} else {
+			r.OK("R14.8", fmt.Sprintf("%s: every parameter field (%d) is assigned on every path through ApplyParameters", key, len(m.Params)))
+		}
+	}
+	r.Floor("R14.8", "wrappers with parameters", n, 17)
 }
